@@ -246,6 +246,51 @@ def tv_once(module, trace, decoded, wd, extra_env=None, timeout=1800, overrides=
     return None
 
 
+def tv_reach(module, trace, wd, cfg=None, extra_env=None, timeout=600):
+    """trace validation with silent steps: accepted iff the end of the trace is reachable (TLC reports the
+    invariant NotDone violated); otherwise returns the 1-based index of the first event no interleaving consumes"""
+    env = {"TRACE": trace, "DECODED": "/dev/null"}
+    if extra_env:
+        env.update(extra_env)
+    r = tlc(module, cfg=cfg, wd=wd, workers=1, env=env, timeout=timeout)
+    if r.violated == "NotDone":
+        return None
+    if r.violated:
+        return ("invariant", r.violated, 0, r)
+    reached = None
+    for line in r.printed:
+        m = re.match(r'^<<"TV_REACHED", (\d+)>>', line)
+        if m:
+            reached = int(m.group(1))
+    if reached is None:
+        raise ToolError("TV (%s) failed:\n%s" % (module, tail(r.out)))
+    return ("reject", None, reached, r)
+
+
+def tv_runs_reach(module, trace, wd, cfg=None, threads=8):
+    """every run validated on its own; returns (accepted, rejects)"""
+    from concurrent.futures import ThreadPoolExecutor
+    lines = [l for l in open(trace).read().split("\n") if l.strip()]
+    runs = split_runs(lines)
+    def work(k):
+        s, e = runs[k]
+        p = os.path.join(wd, "reach-%d.ndjson" % k)
+        with open(p, "w") as f:
+            f.write("\n".join(lines[s:e]) + "\n")
+        return k, tv_reach(module, p, wd, cfg=cfg)
+    acc, rej = 0, []
+    with ThreadPoolExecutor(max_workers=threads) as ex:
+        for k, res in ex.map(work, range(len(runs))):
+            s, e = runs[k]
+            if res is None:
+                acc += 1
+            else:
+                kind, what, idx, r = res
+                pos = min(max(idx - 1, 0), e - s - 1)
+                rej.append({"kind": kind, "what": what, "run_events": lines[s:e], "event_index_in_run": pos, "event": lines[s + pos], "tlc_tail": tail(r.out, 1200)})
+    return acc, rej
+
+
 def split_runs(lines, reset_key="reset"):
     """indices [start, end) of each run; a run starts at an event with ev == reset"""
     starts = [i for i, l in enumerate(lines) if '"ev":"%s"' % reset_key in l.replace('": "', '":"')]
